@@ -120,9 +120,10 @@ Proof. exact bounded_work. Qed.
    abs turns the sorted association lists into finite maps Z -> option _.  Each method body, run
    alone (apply_sop / pscan: what one critical section does, by soh_section_refines), is the
    operation of a pair of finite maps written in spec_sop / spec_ret / pscan_post:
-   addObject refuses duplicates without replacing (and leaves existing tags alone); addType appends,
-   creating the tag entry if needed; removeObject(name) deletes the entry and its tags;
-   copyObject aliases object and tags under the new name unless it exists; find / check / getObjects
+   addObject refuses duplicates without replacing, and on success the name's tags are exactly [type]
+   (or absent); addType appends, creating the tag entry if needed (also for an absent name - such
+   an entry never reaches an object: repair c9feeb7); removeObject(name) deletes the entry and its
+   tags; copyObject aliases object and tags under the new name unless it exists; find / check / getObjects
    / empty read exactly the stored contents; the predicate forms act on the matching entry with the
    least key - removal deletes it and its tags - and a throwing predicate changes nothing. *)
 Theorem soh_seq_refines : forall o arg om tm om' tm' r tch,
@@ -139,6 +140,29 @@ Theorem soh_seq_refines_found : forall o om tm k p om' tm' rv,
   if is_rem o then aeq (abs om') (aupd (abs om) k None) /\ aeq (abs tm') (aupd (abs tm) k None) /\ rv = 1
   else om' = om /\ tm' = tm /\ rv = Z.of_nat (pid p).
 Proof. exact pfound_spec. Qed.
+(* after a successful copyObject(a, b) both names hold the same object and equal tag lists (both
+   absent, or both present and equal); after a successful addObject(n, obj[, type]) the name holds
+   obj and its tags are exactly [type] (or absent) *)
+Theorem soh_copy_aliases_tags : forall a b arg om tm om' tm' tch, sorted om -> sorted tm ->
+  apply_sop (Copy a b) arg om tm = (om', tm', 1, tch) ->
+  (exists p, lookup a om = Some p /\ lookup a om' = Some p /\ lookup b om' = Some p) /\
+  lookup b tm' = lookup a tm' /\ lookup a tm' = lookup a tm.
+Proof. exact copy_aliases_tags. Qed.
+Theorem soh_add_tags_exact : forall o arg om tm om' tm' tch, sorted om -> sorted tm ->
+  apply_sop o arg om tm = (om', tm', 1, tch) ->
+  match o with
+  | Add n _ => lookup n om' = Some arg /\ lookup n tm' = None
+  | AddT n _ ty => lookup n om' = Some arg /\ lookup n tm' = Some [ty]
+  | _ => True
+  end.
+Proof. exact add_tags_exact. Qed.
+(* soh_orphan_leak_refuted: with the method bodies of the header before repair c9feeb7
+   (apply_sop_leaky), addType(b,7); addObject(a,o,1); copyObject(a,b) leaves b naming the same
+   object as a with a different tag list *)
+Theorem soh_orphan_leak_refuted :
+  let '(om, tm) := seq_run true orphan_seq [] [] in
+  lookup 1 om = lookup 0 om /\ lookup 0 om <> None /\ lookup 1 tm <> lookup 0 tm.
+Proof. exact orphan_leak. Qed.
 Theorem soh_maps_sorted : forall th progs s, R th progs s -> sorted (omap (gl s)) /\ sorted (tmap (gl s)).
 Proof. exact maps_sorted. Qed.
 
@@ -182,6 +206,12 @@ Proof. vm_compute. repeat split; auto. Qed.
 Example ex_fixed_witness :
   let s := runS (init [] witness_progs) witness_sched in
   faulted (gl s) = false /\ omap (gl s) = [] /\ tmap (gl s) = [] /\ rc_of (heap (gl s)) 1 = 0%nat.
+Proof. vm_compute. auto. Qed.
+
+(* the sequence of soh_orphan_leak_refuted with the repaired bodies: b gets a's tags *)
+Example ex_orphan_repaired :
+  let '(om, tm) := seq_run false orphan_seq [] [] in
+  lookup 1 om = lookup 0 om /\ lookup 1 tm = Some [1] /\ lookup 0 tm = Some [1].
 Proof. vm_compute. auto. Qed.
 
 (* removal by predicate takes the first match in key order, copyObject aliases object and tags *)
